@@ -225,6 +225,15 @@ var c06Hostile = func() []string {
 		strings.Repeat(" ", 80) + "select * where val = 1",
 		strings.Repeat(" ", 200) + "select * where key = 'a' & nosuch(key) = 1" + strings.Repeat(" ", 200),
 		"select * where key ^= 'k' & value ^= 'v' & key != 'zzzzzzzzzzzzzzzzzzzzzzzzzzzzzzzzzzzzzzzzzzzzzzzzzzzzzzzzzzzzzzzzzzzzzzzzzzzzzzzzzzzzzzzzzzzzzzzzzzzzzzzzzzzzz' & int(value) / (strlen(key) - strlen(key)) > 1",
+		// back-quoted names keep their case, bare words are lower-cased: definitions that meet through either spelling
+		"select upper(`U`) as u where key = 'a'",
+		"select upper(u) as `U`, lower(`U`) as u where true",
+		"select `A` + 'x' as a, a + 'y' as `A` where true",
+		"select upper(`aB`) as `Ab`, lower(`Ab`) as `aB` where true",
+		"select key as `K`, `k` + 'x' as k where `K` = 'a' | k = 'b'",
+		"select int(value) as `N`, `n` + 1 as n, `N` + 1 as `n2` where n > 0 order by `N`",
+		"select `KEY`, `Value`, `key` where true",
+		"select upper(`Key`) as `key` where `key` = 'A'",
 		// words that strconv.ParseFloat accepts are FLOAT literals: nan, inf, infinity, exponents, hex floats
 		"select quantile(value, nan) where true",
 		"select quantile(int(value), nan), count(1) where key ^= 'k'",
